@@ -112,6 +112,31 @@ def insertMany (p : PList) (pos : Nat) : List Int → Option PList
     | some (p', _) => insertMany p' pos vs
     | none => none
 
+/-- the loop of `insert(position, *this)`:
+    `while(i != last) { i = i->next; if(i == result.item) i = pos.item; insert(pos, i->value); }`
+    (the walk over the original items skips the copies that have just been inserted in front of `pos`) -/
+def insertSelfLoop (pos result last : Nat) : Nat → PList → Nat → Option PList
+  | 0, _, _ => none
+  | fuel + 1, p, i =>
+    if i = last then some p
+    else
+      match p.next i with
+      | none => none
+      | some n =>
+        let i' := if n = result then pos else n
+        match insert p pos (p.val i') with
+        | some (p', _) => insertSelfLoop pos result last fuel p' i'
+        | none => none
+
+/-- `insert(position, *this)`; returns the new state and the iterator to the first copy (or `position`) -/
+def insertSelf (p : PList) (pos : Nat) : Option (PList × Nat) :=
+  match p.prev 0 with
+  | none => some (p, pos)                                    -- if(list.endItem.prev == 0) return position;
+  | some last =>
+    match insert p pos (p.val p.begin) with                  -- i = list._begin.item; result = insert(pos, i->value);
+    | none => none
+    | some (p1, result) => (insertSelfLoop pos result last (p.size + 1) p1 p.begin).map (fun q => (q, result))
+
 /-- `find(value)`: `for(i = _begin.item; i != end; i = i->next) if(i->value == value) return i; return _end;`
     (`fuel` bounds the iterations; `none` = exhausted or null `next`) -/
 def findLoop (p : PList) (v : Int) : Nat → Nat → Option Nat
@@ -193,6 +218,7 @@ inductive POp where
   | clear
   | sort
   | insertList (k : Nat) (vs : List Int)
+  | insertSelf (k : Nat)
   | removeValue (v : Int)
 
 def step (p : PList) : POp → Option PList
@@ -217,6 +243,12 @@ def step (p : PList) : POp → Option PList
       | none => none
     else none
   | .removeValue v => removeValue p v
+  | .insertSelf k =>
+    if k ≤ p.size then
+      match walk p p.begin k with
+      | some a => (insertSelf p a).map (·.1)
+      | none => none
+    else none
 
 def run (p : PList) : List POp → PList
   | [] => p
@@ -233,6 +265,7 @@ def stepChain (s : LState) : POp → Option LState
   | .sort => s.sort.map (·.st)
   | .insertList k vs => (s.insertList k vs).map (·.st)
   | .removeValue v => (s.removeValue v).map (·.st)
+  | .insertSelf k => (s.insertList k s.vals).map (·.st)
 
 def runChain (s : LState) : List POp → LState
   | [] => s
